@@ -29,7 +29,10 @@ EofErr(pos, hasId, id, hasSize, size, hasPartial, partial) ==
 DataErr(ekind, pos, id, size) == ErrRec(ekind, pos, TRUE, id, size # <<>>, size, FALSE, <<>>, FALSE, <<>>)
 Kid(kind, id, ty, val, kids) == [kind |-> kind, id |-> id, ty |-> ty, val |-> val, kids |-> kids]
 
-InitReader == [pos |-> 0, stack |-> <<>>, queue |-> <<>>, docPath |-> FALSE]
+\* grown: the largest payload size the buffer was ever enlarged for (ensure_capacity); the capacity of the
+\* internal buffer is Max(initial capacity, 16, grown)
+InitReader == [pos |-> 0, stack |-> <<>>, queue |-> <<>>, docPath |-> FALSE, grown |-> 0]
+Capacity(cap0, r) == Max(Max(cap0, 16), r.grown)
 
 (* ------------------------------ headers ------------------------------ *)
 \* the id starting at absolute offset pos (byte pos+1 of inp); only delivered bytes are looked at
@@ -90,9 +93,10 @@ ReadTag(sch, cfg, inp, r) ==
   ELSE LET h == ph.h  ty == ph.ty  d == start + h.hlen  r1 == [ph.r EXCEPT !.pos = d] IN
   IF ty = "master" THEN [t |-> "tag", r |-> r1, master |-> TRUE, h |-> h, it |-> Item("start", h.id, start, "master", <<>>, <<>>)]
   ELSE IF h.unk THEN [t |-> "err", r |-> r1, e |-> DataErr("bad_data", start, h.id, <<>>)]
+  \* the payload is about to be read: only now - after every check of PeekHeader - may the buffer grow (C17)
   ELSE IF d + h.size > Len(inp)
-       THEN [t |-> "err", r |-> r1, e |-> EofErr(start, TRUE, h.id, TRUE, h.sizeW, TRUE, SubSeq(inp, d + 1, Len(inp)))]
-  ELSE LET pl == SubSeq(inp, d + 1, d + h.size)  dec == Decode(ty, pl)  r2 == [r1 EXCEPT !.pos = d + h.size] IN
+       THEN [t |-> "err", r |-> [r1 EXCEPT !.grown = Max(@, h.size)], e |-> EofErr(start, TRUE, h.id, TRUE, h.sizeW, TRUE, SubSeq(inp, d + 1, Len(inp)))]
+  ELSE LET pl == SubSeq(inp, d + 1, d + h.size)  dec == Decode(ty, pl)  r2 == [r1 EXCEPT !.pos = d + h.size, !.grown = Max(@, h.size)] IN
        IF dec.t = "err" THEN [t |-> "err", r |-> r2, e |-> ErrRec("tag_data", -1, TRUE, h.id, FALSE, <<>>, FALSE, <<>>, FALSE, <<>>)]
        ELSE [t |-> "tag", r |-> r2, master |-> FALSE, h |-> h,
              it |-> Item(IF ty = "raw" THEN "raw" ELSE "elem", h.id, start, ty, dec.val, <<>>)]
